@@ -69,7 +69,7 @@ PROPS = {
                     "element conversion on send is checked differentially (templates) only"],
     },
     "C15": {
-        "gens": ["ParserGen"],
+        "gens": ["ParserGen", "Lexer"],
         "lean": "Anko.Props.C15",
         "streams": [{"name": "lex", "n_quick": 2500, "n_thorough": 50000}],
         "trusted": ["goyacc and its LALR driver (the generated parser is exercised, not modelled)",
@@ -308,7 +308,10 @@ MANIFEST_TEXT = {
         "design_ref": "DESIGN.md section 6 (C16)",
     },
     "C15": {
-        "text": "Machine-checked proofs (Lean 4) over a function-by-function model of the scanner (lexer.go): for EVERY text no scanning loop "
+        "text": "The scanner model's keyword table, character classes and operator switch are REGENERATED from parser/lexer.go on every run (translated expression "
+                "by expression) and proved equal to the model's, for every character (keywords_are_the_lexers, character_classes_are_the_lexers, "
+                "operator_switch_is_the_lexers, scan_uses_the_operator_table). "
+                "Machine-checked proofs (Lean 4) over a function-by-function model of the scanner (lexer.go): for EVERY text no scanning loop "
                 "runs out of fuel (each iteration advances the cursor, including the back()-and-retry loop of block comments and the escape "
                 "handling of strings), the cursor/line bookkeeping invariant is kept by next() and by every use of back(), every token "
                 "other than EOF consumes input, and every position handed to the parser - of a token or of the first error - is a position of "
